@@ -67,3 +67,56 @@ Proof.
   pose proof (dep_rest_step c n prog d H1 H2 H3 H4 H5 H6 H7) as [_ [_ [Hp [Hw Hr]]]]. auto.
 Qed.
 Print Assumptions C12_resolver_percall_exited_at_rest.
+
+(* ---- REFUTED on the code as it is: witnesses by computation on the executable models
+   (Proofs/Refute.v); each is a recorded finding (KNOWN_FINDINGS.txt) ---- *)
+From EL Require Model.Exec Model.ExecInv Model.StepExec Model.FileExec Model.FileSpec Model.CacheExec Proofs.FileSafe Proofs.FileRefute Proofs.CacheSafe Proofs.Refute.
+Module RefutedC12.
+Import Exec ExecInv StepExec FileExec FileSpec CacheExec FileSafe FileRefute CacheSafe Refute.
+Import ListNotations.
+
+(* finding D16: shutdown(wait=True) re-raises the first failed thread's exception and returns while another worker process is still alive (and goes on to execute its call) *)
+Theorem C12_refuted_shutdown_returns_with_live_process :
+  erun d16_cfg d16_pre d16_init = Some d16_s0
+  /\ main d16_s0 = MJoin 0 /\ ops d16_s0 = [OShutdown true false; ODrop]
+  /\ step d16_cfg d16_s0 TM = Some (d16_s1, LTJoin 1)
+  /\ outs d16_s1 = [XOk; XOk; XRaise]                                 (* shutdown raised *)
+  /\ last (outs d16_s1) XSkip = XRaise
+  /\ main d16_s1 = MEnd /\ ops d16_s1 = []                            (* the client is past the shutdown *)
+  /\ map wp (ws d16_s1) = [WDead; WRecv 2]
+  /\ map pp (ps d16_s1) = [PExit; PBody 2]                            (* P2 is alive, inside call 2 *)
+  /\ existsb palive (ps d16_s1) = true
+  /\ futs d16_s1 = [FExc; FRunning]
+  /\ step d16_cfg d16_s1 (TP 2) = Some (d16_s2, LBody 2)              (* the function runs afterwards *)
+  /\ reach d16_cfg d16_init d16_s1.
+Proof. exact block_shutdown_reraises_with_live_process. Qed.
+Print Assumptions C12_refuted_shutdown_returns_with_live_process.
+
+(* finding D23: a surviving worker thread blocks for ever after a failing call (ghost thread) *)
+Theorem C12_refuted_surviving_worker_blocks_forever :
+  (erun d23_cfg d23a_sched d23_init = Some d23a_state
+   /\ enabled d23_cfg d23a_state = []                                (* nothing can move *)
+   /\ main d23a_state = MJoin 0                                      (* the client: in join of W1 *)
+   /\ ops d23a_state = [OShutdown true false; ODrop]                 (* ... inside the shutdown *)
+   /\ outs d23a_state = [XOk]
+   /\ map wp (ws d23a_state) = [WSQJoin; WDead]                      (* W1: in queue.join() *)
+   /\ map pp (ps d23a_state) = [PExit; PExit]
+   /\ getq d23a_state 0 = mkQ [Shut true] 1                          (* W2's message is never taken *)
+   /\ qunf (getq d23a_state 0) <> 0
+   /\ main d23a_state <> MEnd
+   /\ getf d23a_state 1 = FExc
+   /\ reach d23_cfg d23_init d23a_state)
+  /\
+  (erun d23_cfg d23b_sched d23_init = Some d23b_state
+   /\ enabled d23_cfg d23b_state = []
+   /\ main d23b_state = MEnd /\ outs d23b_state = [XOk; XRaise]      (* the shutdown raised *)
+   /\ map wp (ws d23b_state) = [WDead; WSQJoin]                      (* W2: in queue.join() for ever *)
+   /\ existsb (fun w => match wp w with WSQJoin => true | _ => false end) (ws d23b_state) = true
+   /\ map pp (ps d23b_state) = [PExit; PExit]
+   /\ getq d23b_state 0 = mkQ [Shut true] 1
+   /\ qunf (getq d23b_state 0) <> 0
+   /\ getf d23b_state 1 = FExc
+   /\ reach d23_cfg d23_init d23b_state).
+Proof. exact block_failed_call_blocks_survivors. Qed.
+Print Assumptions C12_refuted_surviving_worker_blocks_forever.
+End RefutedC12.
